@@ -4,6 +4,7 @@ from hypothesis import strategies as st
 import pyModeS as pms
 from ref import cpr, frames
 from vlib import gen
+from vlib import variants
 from vlib.core import Leg, call
 from checks import cprcommon as cg
 
@@ -61,6 +62,8 @@ def chk_pair(case, note):
     displaced = (case["lat1"], case["lon1"]) != (case["lat2"], case["lon2"])
     dtm = case.get("as_datetime", False)
     T1, T2 = cg.as_time(case["t1"], dtm), cg.as_time(case["t2"], dtm)
+    if (case["ctx_bits"] if "ctx_bits" in case else hash(f1)) & 2:
+        variants.prelude(pms, f1)   # helpers on the same string, and other message types of the same aircraft, decoded first
     for order in ("12", "21"):
         a, b = ((f1, T1, i1), (f2, T2, i2)) if order == "12" else ((f2, T2, i2), (f1, T1, i1))
         for fname, fn in (("position", pms.adsb.position), ("airborne_position", pms.adsb.airborne_position)):
